@@ -52,13 +52,20 @@ PROVED = ('For every history of reads, queued / flushing writes, arbitrary packe
           'the data written at addr and nothing else changed, for every address, length and content, under replies that '
           'are duplicated, delayed, reordered or refused, as long as each delivered reply answers a packet of the '
           'request that is still active; and when every reply is delivered in order the transfer takes exactly '
-          'ceil(len/chunk) request packets (one for length 0) and ends with the success notification.')
+          'ceil(len/chunk) request packets (one for length 0) and ends with the success notification. Deck-memory layer '
+          '(DeckMemory.read/write -> DeckMemoryManager, model C06/DeckModel.v of the code with fixes/F06d.patch): for '
+          'every history of deck reads and writes on decks with any bases (one read and one write outstanding at the '
+          'same time), arbitrary packets, disconnects and requests on other memories, every deck callback reports the '
+          'deck-relative address asked in the request it belongs to, the data of a deck read / the completion of a deck '
+          'write are those of a completed transfer at base + address, and no listener calls a missing callback.')
 NOT_PROVED = ('Exactness when a reply that outlived its request (a late duplicate) is delivered to a later request for '
               'the same memory and address: refuted (C06_read_exact_full_refuted / C06_write_exact_full_refuted, '
               'finding F06b, reproduced on the code by the oracle; the protocol carries no transaction number). '
               'Requests outside wf_event, user callbacks that raise, requests issued from the notifications of a disconnect, progress_cb (a zero-length write with '
               'a progress callback divides by zero while the lock is held), true thread interleavings of user calls with '
-              'the packet thread, the info channel (memory enumeration).')
+              'the packet thread, the info channel (memory enumeration); of the deck layer: query_decks / the info section '
+              '(its parsing belongs to C14), bases <= 0, other users of the manager\'s memory id, write_failed_cb left at '
+              'its default None (the code then calls None when the write fails), progress messages.')
 
 HEADER = 'From CF Require Import Common.Bytes C06.Model C06.DeckModel.\nOpen Scope Z_scope.\n'
 
